@@ -21,16 +21,33 @@ Operations (signatures as in dask/array/routines.py):
 Inputs: integer / float arrays over small alphabets (duplicates), NaN in float data, random chunkings with
 zero-length chunks inserted (e.g. ((0, 3, 0, 2),)), zero-length arrays.
 
+Labels.  When a case violates, the module re-runs it with one input feature removed at a time (extra empty chunks on
+axes of length <= 1 -> "short-axis-split", other empty chunks, NaN, zero-length axes); a feature stays in the label only
+if its removal makes the same symptom disappear, so a label names the feature that matters and not whatever else the
+random case contained.  nonzero/flatnonzero are labelled as argwhere and histogram2d as histogramdd (thin wrappers);
+failures inside ravel()/reshape() of an n-d input are labelled "ravel" whichever routine called it; all symptoms of the
+short-axis-split mechanism are collapsed per routine (see findings_proposed/C27.md, group I).
+
 Calibration
-* (filled in during calibration, see bottom of this docstring)
+* np.bincount(empty, weights=empty) returns int64 (NumPy's empty-input shortcut ignores the weights) while every
+  non-empty weighted call returns float64; dask returns float64 throughout: dtype not compared for that input.
+* assume_unique=True is only passed when both inputs really are unique (otherwise NumPy's own result is undefined).
+* count_nonzero has no keepdims parameter in dask; ravel_multi_index/unravel_index support order= and mode=.
+* coarsen is not a NumPy routine: reference = trim + reshape + reduce; no zero-length inputs (nothing defines them).
+* histogram/histogramdd densities and fractional weights are compared within the reassociation tolerance, counts exactly.
+* searchsorted(sorter=...) is documented unsupported and not generated; ravel() of some zero-length n-d chunkings
+  raises NotImplementedError -> counted as unsupported.
+* a wrong computed shape is reported once (not again as lazy-shape).
 """
 from __future__ import annotations
 
 import random
+import traceback
 import warnings
 
 import numpy as np
 
+from ..core.ctx import CaseTimeout, exc_label, through_shim
 from ..gen import arrays as A
 from ..mon.compare import compare_arrays, lazy_meta_mismatch
 
@@ -43,10 +60,19 @@ RULE = ("cases = (operation, input shapes 0-3 d with lengths 0-8, data alphabet/
 ASSUMPTIONS = ["NumPy 2.x defines the expected values, dtype and shape", "sync scheduler",
                "coarsen reference = trim, reshape to (n//k, k) per axis and reduce (harness code)"]
 BUDGET = {"quick": 60, "thorough": 560}
-FLOORS = {"quick": {"evaluations": 1000, "distinct_nontrivial": 500, "counters": {"compared": 1000},
-                    "max_skipped_fraction": 0.3},
-          "thorough": {"evaluations": 10000, "distinct_nontrivial": 5000, "counters": {"compared": 10000},
-                       "max_skipped_fraction": 0.3}}
+_OPF = {"unique": 520, "bincount": 370, "histogram": 250, "histogramdd": 270, "digitize": 135, "searchsorted": 300, "isin": 340,
+        "argwhere": 450, "count_nonzero": 115, "ravel_multi_index": 135, "unravel_index": 115, "coarsen": 240, "compress": 250}
+FLOORS = {"quick": {"evaluations": 1700, "distinct_nontrivial": 1200,
+                    "counters": dict({"compared": 1600, "lazy_meta_checked": 2200, "input:empty-chunk": 550, "input:nan": 300,
+                                      "input:zero-length": 160, "input:short-axis-split": 160},
+                                     **{"ran:" + k: int(v * 0.4) for k, v in _OPF.items()}),
+                    "max_skipped_fraction": 0.1},
+          "thorough": {"evaluations": 25000, "distinct_nontrivial": 18000,
+                       "counters": dict({"compared": 23000, "lazy_meta_checked": 32000, "input:empty-chunk": 8000, "input:nan": 4500,
+                                         "input:zero-length": 2400, "input:short-axis-split": 2400},
+                                        **{"ran:" + k: int((v - (256 if k == "unique" else 128 if k == "bincount" else 64 if k in ("searchsorted", "isin") else 0)) * 20 * 0.4)
+                                           for k, v in _OPF.items()}),
+                       "max_skipped_fraction": 0.1}}
 EXHAUSTIVE_SPACE = ("all 32 chunkings of a length-6 array with pattern over {0,1,2} x {unique x 8 optional-output "
                     "combinations, bincount x minlength {0,5} x weights {no,yes}, searchsorted x side {left,right}, "
                     "isin x invert, nonzero}")
@@ -55,6 +81,36 @@ CLAIM = ("Every generated call of the listed counting/set/search/histogram routi
          "dtype/shape; held = no mismatch and no dask exception inside the domain on the executions observed.")
 LEVEL_NOTE = "NumPy is the reference; domain limited to parameters in dask's signatures and the statement's list"
 TECHNIQUE = "runtime monitoring: NumPy differential oracle over generated inputs (empty chunks, NaN, duplicates) and a complete small chunking space"
+
+PENDING = {
+    "unique:nan:ValueError@array/routines.py:_unique_internal":
+        "unique(return_index=True) on data containing NaN raises 'zero-size array to reduction operation minimum' (ar == v never matches NaN)",
+    "unique/counts:nan:values": "unique(return_counts=True): the count of NaN is 0 instead of the number of NaNs",
+    "unique/inverse:nan:values": "unique(return_inverse=True): NaN entries get inverse index 0 instead of the index of NaN",
+    "bincount:minlength>0&max(x)>=minlength:lazy-shape":
+        "bincount(minlength=m) declares shape (m,) although the computed result is longer when max(x) >= m (values are right)",
+    "histogramdd/hist:weights=int:dtype": "histogramdd/histogram2d with integer weights return int64 where NumPy returns float64",
+    "coarsen:empty-chunk:shape": "coarsen drops zero-length chunks of un-coarsened axes from .chunks but keeps their block keys: blocks shift, elements are lost",
+    "compress:empty-chunk&cond=concrete:ValueError@array/slicing.py:take":
+        "compress / integer-array take along an axis that has more chunks than elements: average_chunk_size == 0 -> range() arg 3 must not be zero",
+    "ravel:empty-chunk&nd>1:ValueError@utils.py:__call__":
+        "ravel()/reshape(-1) of an n-d array whose first axis has an interior empty chunk: 'cannot reshape array of size 0 into shape (k,)' (reached through unique/argwhere/flatnonzero/nonzero/compress(axis=None))",
+    "ravel:zero-length&nd>1:Error@array/reshape.py:reshape_rechunk":
+        "ravel() of an n-d array with a zero-length axis and another axis in several chunks: reduce() of empty iterable in reshape_rechunk",
+    "searchsorted:empty-chunk&v-nd>1:ValueError@array/core.py:concatenate3":
+        "searchsorted with n-d v that has empty chunks: out.max(axis=0) fails in concatenate3 (could not broadcast input array)",
+    "searchsorted:empty-chunk&v-nd>1:shape": "same mechanism, wrong result shape instead of an exception",
+    "searchsorted:zero-length&v-nd>1:shape": "searchsorted with n-d zero-size v returns shape (1, 0) instead of v.shape",
+    "unravel_index:zero-length&nd>1:shape": "unravel_index of an n-d zero-size index array returns arrays of shape (0,) instead of indices.shape",
+    # one mechanism for the next seven: unify_chunks/blockwise treat an axis of length <= 1 as broadcastable and rechunk it
+    # to a single block even when it carries extra empty chunks, e.g. chunks (1, 0) or (0, 0): blocks are duplicated / missing
+    "argwhere:short-axis-split:mismatch-or-error": "argwhere/nonzero/flatnonzero on a length-1 axis chunked (1, 0): the index is returned twice",
+    "isin:short-axis-split:mismatch-or-error": "isin: AxisError/ValueError in _concatenate2 when element or test_elements has a length<=1 axis with extra empty chunks",
+    "searchsorted:short-axis-split:mismatch-or-error": "searchsorted: Missing dependency / wrong shape / wrong values for such chunkings of a or v",
+    "unique:short-axis-split:mismatch-or-error": "unique(return_inverse=True): Missing dependency / AxisError / key strings leaking into the result",
+    "compress:short-axis-split:mismatch-or-error": "compress with a dask condition chunked (1, 0): key strings leak into concatenate3 / wrong shape",
+    "ravel_multi_index:short-axis-split:mismatch-or-error": "ravel_multi_index(tuple of zero-length arrays chunked (0,) and (0, 0)): 'Chunks do not align'",
+}
 
 OPS = ["unique", "unique", "bincount", "bincount", "histogram", "histogram", "histogram2d", "histogramdd", "digitize",
        "searchsorted", "searchsorted", "isin", "isin", "nonzero", "argwhere", "flatnonzero", "count_nonzero",
@@ -113,7 +169,7 @@ def cases(tier, seed):
                    "t": {"shape": [2], "chunks": [[1, 1]], "vals": "probe2", "seed": 0}}
         yield {"space": "exhaustive", "op": "nonzero", "a": a}
     # ---- random part ----------------------------------------------------------------------------------------
-    n = 4200 if tier == "quick" else 70000
+    n = 3000 if tier == "quick" else 60000
     for _ in range(n):
         op = rng.choice(OPS)
         yield globals()["_g_" + op](rng)
@@ -257,7 +313,7 @@ def _g_unravel_index(rng):
 
 
 def _g_coarsen(rng):
-    a = _arr(rng, vals=rng.choice(("int", "float", "floatnan")), zero=0.04)
+    a = _arr(rng, vals=rng.choice(("int", "float", "floatnan")), zero=0.0)    # coarsen is not a NumPy routine: no zero-length
     nd = len(a["shape"])
     trim = rng.random() < 0.5
     axes = {}
@@ -352,12 +408,10 @@ def _input_features(*arrs_chunks):
             elif np.asarray(x).dtype.kind == "f" and np.isnan(x).any():
                 f.add("nan")
         if chunks is not None:
-            if any(sum(c) == 1 and len(c) > 1 for c in chunks):
-                f.add("len1-axis-split")        # a length-1 axis carrying an extra empty chunk, e.g. (1, 0)
+            if any(sum(c) <= 1 and len(c) > 1 for c in chunks):
+                f.add("short-axis-split")       # an axis of length 0 or 1 carrying extra empty chunks, e.g. (1, 0), (0, 0)
             if any(0 in c and sum(c) > 1 for c in chunks):
                 f.add("empty-chunk")
-            if any(sum(c) == 0 and len(c) > 1 for c in chunks):
-                f.add("zero-length-split")      # a zero-length axis in several (empty) chunks, e.g. (0, 0)
     return "&".join(sorted(f)) or "plain"
 
 
@@ -375,28 +429,22 @@ def run_case(case, ctx):
             _run(case, ctx)
 
 
-def _run(case, ctx):
+def _evaluate(case):
+    """Run one case.  Returns dict(status ok|reject|unsupported, reason, plan, findings, shapes) where findings is a
+    list of dict(who, sym, msg, detail)."""
     op = case["op"]
-    ctx.op(op)
-    ctx.sig = _strip(case)
+    out = {"status": "ok", "reason": None, "plan": None, "findings": [], "shapes": [], "lazy_checked": 0}
     try:
         plan = globals()["_p_" + op](case)
     except _Reject as ex:
-        ctx.reject(str(ex))
-        return
-    # plan: dict(label, feat, nontrivial, ref=callable -> tuple of arrays, run=callable -> tuple of dask arrays,
-    #            names=tuple of output names, tol=None | (n, scale))
-    ctx.nontrivial = plan["nontrivial"]
+        return dict(out, status="reject", reason=str(ex))
+    # plan: dict(label, feat, params, nontrivial, ref=callable -> arrays, run=callable -> dask arrays, names, tol)
+    out["plan"] = plan
     label = plan["label"]
-    feat = plan["feat"]
-    for f in feat.split("&") + list(plan.get("params", ())):
-        if f:
-            ctx.count("input:" + f)
     try:
         expected = plan["ref"]()
     except Exception as ex:  # noqa: BLE001
-        ctx.reject("numpy: %s: %s" % (type(ex).__name__, ex))
-        return
+        return dict(out, status="reject", reason="numpy: %s: %s" % (type(ex).__name__, ex))
     import dask
 
     try:
@@ -404,33 +452,175 @@ def _run(case, ctx):
         lazy = tuple(lazy) if isinstance(lazy, (tuple, list)) else (lazy,)
         values = dask.compute(*lazy, scheduler="sync")
     except NotImplementedError as ex:
-        ctx.unsupported(str(ex))
-        return
+        return dict(out, status="unsupported", reason=str(ex))
+    except CaseTimeout:
+        raise
     except Exception as ex:  # noqa: BLE001
-        ctx.exception(ex, prefix="%s:%s" % (label, feat))
-        return
+        tb = "".join(traceback.format_exception(type(ex), ex, ex.__traceback__))[-3000:]
+        site = exc_label(ex)
+        who = label
+        if "reshape.py" in site or str(ex).startswith("cannot reshape array"):
+            who = "ravel"        # the failure is inside ravel()/reshape() of an n-d input, whatever routine called it
+        out["findings"].append({"who": who, "sym": site, "msg": "%s: %s" % (type(ex).__name__, str(ex)[:400]),
+                                "detail": {"traceback": tb}, "shim": through_shim(ex)})
+        return out
     expected = tuple(expected) if isinstance(expected, (tuple, list)) else (expected,)
-    ctx.count("compared")
+    out["compared"] = True
     if len(values) != len(expected):
-        ctx.violation("%s:%s:number-of-outputs" % (label, feat), "%d outputs vs %d expected" % (len(values), len(expected)))
-        return
+        out["findings"].append({"who": label, "sym": "number-of-outputs",
+                                "msg": "%d outputs vs %d expected" % (len(values), len(expected)), "detail": {}})
+        return out
     names = plan.get("names") or tuple("out%d" % i for i in range(len(expected)))
     tol = plan.get("tol")
+    seen = set()
     for nm, lz, rv, e in zip(names, lazy, values, expected):
         e = np.asarray(e)
         if tol and e.dtype.kind == "f":
-            m = compare_arrays(rv, e, exact=False, n=tol[0], scale=tol[1])
+            m = compare_arrays(rv, e, exact=False, n=tol[0], scale=tol[1], check_dtype=plan.get("check_dtype", True))
         else:
-            m = compare_arrays(rv, e, exact=True)
-        who = label + ("" if len(names) == 1 else "/" + nm)
-        if m:
-            ctx.violation("%s:%s:%s" % (who, feat, m[0]), m[1], got=np.asarray(rv), expected=e)
-        elif hasattr(lz, "dask"):
-            ctx.count("lazy_meta_checked")
+            m = compare_arrays(rv, e, exact=True, check_dtype=plan.get("check_dtype", True))
+        who = label + ("" if len(names) == 1 or not plan.get("name_outputs", True) else "/" + nm)
+        if m is None and hasattr(lz, "dask"):
+            out["lazy_checked"] += 1
             m = lazy_meta_mismatch(lz, rv)
-            if m:
-                ctx.violation("%s:%s:%s" % (who, feat, m[0]), m[1])
-    ctx.sample = {"op": label, "features": feat, "out_shapes": [list(np.shape(v)) for v in values][:4]}
+        if m and (who, m[0]) not in seen:
+            seen.add((who, m[0]))
+            out["findings"].append({"who": who, "sym": m[0], "msg": m[1],
+                                    "detail": {"got": np.asarray(rv), "expected": e, "lazy": repr(lz)[:160]}})
+    out["shapes"] = [list(np.shape(v)) for v in values][:4]
+    return out
+
+
+DOMAIN = ("zero-length", "short-axis-split", "empty-chunk", "nan")
+
+
+def _minimal_features(case, finding):
+    """Greedy ablation: remove one input feature at a time (extra empty chunks on short axes, empty chunks, NaN,
+    zero-length axes); a feature whose removal keeps the same symptom is irrelevant for the label.  Returns the plan
+    feature string of the reduced case."""
+    cur = case
+    for f in DOMAIN:
+        present = globals()["_p_" + cur["op"]](cur)["feat"].split("&")
+        if f not in present:
+            continue
+        try:
+            red = ABLATE[f](cur)
+            ev = _evaluate(red)
+        except CaseTimeout:
+            raise
+        except Exception:  # noqa: BLE001  (an ablation that cannot be built keeps the feature)
+            continue
+        if ev["status"] == "ok" and any(g["who"] == finding["who"] and g["sym"] == finding["sym"] for g in ev["findings"]):
+            cur = red
+    return globals()["_p_" + cur["op"]](cur)["feat"], cur
+
+
+def _run(case, ctx):
+    op = case["op"]
+    ctx.op(op)
+    ctx.sig = _strip(case)
+    ev = _evaluate(case)
+    plan = ev["plan"]
+    if plan is not None:
+        ctx.count("ran:" + plan["label"])
+        ctx.nontrivial = plan["nontrivial"]
+        for f in plan["feat"].split("&") + list(plan.get("params", ())):
+            if f:
+                ctx.count("input:" + f)
+    if ev["status"] == "reject":
+        ctx.reject(ev["reason"])
+        return
+    if ev["status"] == "unsupported":
+        ctx.unsupported(ev["reason"])
+        return
+    if ev.get("compared"):
+        ctx.count("compared")
+    ctx.count("lazy_meta_checked", ev["lazy_checked"])
+    for fd in ev["findings"]:
+        if fd.get("shim"):
+            ctx.envlimited(fd["msg"])
+            continue
+        feat, reduced = _minimal_features(case, fd)
+        who, sym = fd["who"], fd["sym"]
+        fl = feat.split("&")
+        if "short-axis-split" in fl:
+            # one mechanism (an axis of length <= 1 carrying extra empty chunks is treated as broadcastable), many
+            # symptoms: collapse them
+            who, feat, sym = plan["label"], "short-axis-split", "mismatch-or-error"
+        elif who == "ravel":
+            if "zero-length" in fl:      # TypeError or IndexError from the same loop over an empty chunk product
+                feat, sym = "zero-length&nd>1", sym.split("@")[0].replace("TypeError", "Error").replace("IndexError", "Error") + "@" + sym.split("@")[-1]
+            else:
+                feat = "&".join([f for f in fl if f in DOMAIN] + ["nd>1"])
+        elif "zero-length" in fl and "empty-chunk" in fl:
+            feat = "&".join(f for f in fl if f != "empty-chunk")     # a zero-size input dominates extra empty chunks
+        feat = "&".join(f for f in feat.split("&") if f != "plain") or "any-input"
+        ctx.violation("%s:%s:%s" % (who, feat, sym), fd["msg"], reduced_case=reduced, **fd["detail"])
+    ctx.sample = {"op": plan["label"], "features": plan["feat"], "out_shapes": ev["shapes"]}
+
+
+# ---- ablations -------------------------------------------------------------------------------------------------
+def _map_chunk_lists(o, fn, key=None):
+    """Apply fn to every per-axis chunk list (list of ints stored under a *chunks* / rows key)."""
+    if isinstance(o, dict):
+        return {k: _map_chunk_lists(v, fn, k) for k, v in o.items()}
+    if isinstance(o, list) and key is not None and ("chunks" in key or key == "rows"):
+        if o and all(isinstance(i, int) for i in o):
+            return fn(o)
+        return [_map_chunk_lists(v, fn, key) for v in o]
+    return o
+
+
+def _ab_short(case):
+    return _map_chunk_lists(case, lambda c: [sum(c)] if sum(c) <= 1 and len(c) > 1 else c)
+
+
+def _ab_empty(case):
+    lo = 0 if case["op"] == "coarsen" else 1      # coarsen: see _p_coarsen
+    return _map_chunk_lists(case, lambda c: [i for i in c if i] if sum(c) > lo else c)
+
+
+def _ab_nan(o):
+    if isinstance(o, dict):
+        return {k: (v.replace("floatnan", "float") if k == "vals" and isinstance(v, str) else _ab_nan(v)) for k, v in o.items()}
+    if isinstance(o, list):
+        return [_ab_nan(v) for v in o]
+    return o
+
+
+def _fix_zero_desc(d):
+    shape = [2 if n == 0 else n for n in d["shape"]]
+    chunks = [[2] if n == 0 else c for n, c in zip(d["shape"], d["chunks"])]
+    return dict(d, shape=shape, chunks=chunks)
+
+
+def _ab_zero(case):
+    c = dict(case)
+    for k in ("a", "b", "v", "t"):
+        if isinstance(c.get(k), dict) and "shape" in c[k]:
+            c[k] = _fix_zero_desc(c[k])
+    op = c["op"]
+    if op == "histogramdd" and c["n"] == 0:
+        c["n"], c["rows"] = 2, [2]
+    if op == "histogram2d":
+        c["b"] = dict(c["b"], shape=c["a"]["shape"], chunks=c["a"]["chunks"])
+    if op in ("ravel_multi_index", "unravel_index"):
+        ish = c["ishape"]
+        c["ishape"] = [2 if n == 0 else n for n in ish]
+        if op == "unravel_index":
+            c["chunks"] = [[2] if n == 0 else ch for n, ch in zip(ish, c["chunks"])]
+        else:
+            c["chunks"] = [[[2] if n == 0 else ch for n, ch in zip(ish, chs)] for chs in c["chunks"]]
+            c["schunks"] = [c["schunks"][0]] + [[2] if n == 0 else ch for n, ch in zip(ish, c["schunks"][1:])]
+    if op == "compress":
+        shp = c["a"]["shape"]
+        n = int(np.prod(shp)) if c["axis"] is None else shp[c["axis"]]
+        if c["clen"] == 0 and n != 0 and case["clen"] == (int(np.prod(case["a"]["shape"])) if c["axis"] is None else case["a"]["shape"][c["axis"]]):
+            c["clen"], c["cchunks"] = n, [n]
+    return c
+
+
+ABLATE = {"short-axis-split": _ab_short, "empty-chunk": _ab_empty, "nan": _ab_nan, "zero-length": _ab_zero}
 
 
 def _strip(o):
@@ -452,9 +642,7 @@ def _p_unique(case):
     kw = {"return_index": bool(fl & 1), "return_inverse": bool(fl & 2), "return_counts": bool(fl & 4)}
     names = ("values",) + tuple(n for n, b in (("index", fl & 1), ("inverse", fl & 2), ("counts", fl & 4)) if b)
     feat = _input_features((x, d.chunks))
-    if x.ndim > 1:
-        feat += "&nd>1"
-    return {"label": "unique", "feat": feat, "nontrivial": _split(d.chunks), "names": names,
+    return {"label": "unique", "feat": feat, "params": ["nd>1"] if x.ndim > 1 else [], "nontrivial": _split(d.chunks), "names": names,
             "ref": lambda: np.unique(x, **kw), "run": lambda: da.unique(d, **kw)}
 
 
@@ -469,10 +657,12 @@ def _p_bincount(case):
     kw = {"minlength": case["minlength"]}
     feat = _input_features((x, d.chunks))
     feat += "&minlength>0" if case["minlength"] else ""
-    feat += "&weights" if w is not None else ""
-    params = ["split_every"] if case["split_every"] else []
+    feat += "&max(x)>=minlength" if case["minlength"] and x.size and int(x.max()) >= case["minlength"] else ""
+    params = (["split_every"] if case["split_every"] else []) + (["weights=" + case["weights"]] if w is not None else [])
     tol = (max(1, x.size), float(np.abs(w).sum()) or 1.0) if case["weights"] == "frac" else None
-    return {"label": "bincount", "feat": feat, "params": params, "nontrivial": _split(d.chunks), "tol": tol,
+    # Calibration: np.bincount(empty, weights=empty) returns int64 (NumPy ignores the weights on its empty-input
+    # shortcut) although every non-empty weighted call returns float64; dask returns float64 throughout.
+    return {"label": "bincount", "feat": feat, "params": params, "check_dtype": not (x.size == 0 and w is not None), "nontrivial": _split(d.chunks), "tol": tol,
             "ref": lambda: np.bincount(x, weights=w, **kw),
             "run": lambda: da.bincount(d, weights=dw, split_every=case["split_every"], **kw)}
 
@@ -504,7 +694,7 @@ def _p_histogram(case):
         kw["density"] = case["density"]
     feat = _input_features((x, d.chunks))
     params = ["bins=" + case["bins"]["kind"]]
-    feat += "&weights=" + case["weights"] if w is not None else ""
+    feat += "&weights=" + ("int" if case["weights"] == "int" else "float") if w is not None else ""
     feat += "&density" if case["density"] else ""
     tol = None
     if case["weights"] == "frac" or case["density"]:
@@ -540,7 +730,7 @@ def _p_histogram2d(case):
         kw["density"] = case["density"]
     feat = _input_features((x, dx.chunks), (y, None))
     params = ["bins=" + case["form"], "via-histogram2d"]
-    feat += "&weights=" + case["weights"] if w is not None else ""
+    feat += "&weights=" + ("int" if case["weights"] == "int" else "float") if w is not None else ""
     feat += "&density" if case["density"] else ""
     tol = (max(1, x.size), 1e3) if case["density"] else None
     return {"label": "histogramdd", "feat": feat, "params": params, "nontrivial": _split(dx.chunks), "names": ("hist", "xedges", "yedges"),
@@ -569,7 +759,7 @@ def _p_histogramdd(case):
         kw["density"] = case["density"]
     feat = _input_features((s, (rows,)))
     params = ["bins=" + case["form"], "rect" if case["rect"] else "seq"]
-    feat += "&weights=" + case["weights"] if w is not None else ""
+    feat += "&weights=" + ("int" if case["weights"] == "int" else "float") if w is not None else ""
     feat += "&density" if case["density"] else ""
     tol = (max(1, n), 1e4) if case["density"] else None
 
@@ -601,10 +791,10 @@ def _p_searchsorted(case):
 
     x, d = _da(case["a"])
     v, dv = _da(case["v"])
-    feat = _input_features((x, d.chunks), (v, dv.chunks)) + "&side=" + case["side"]
+    feat = _input_features((x, d.chunks), (v, dv.chunks))
     if v.ndim > 1:
         feat += "&v-nd>1"
-    return {"label": "searchsorted", "feat": feat, "nontrivial": _split(d.chunks),
+    return {"label": "searchsorted", "feat": feat, "params": ["side=" + case["side"]], "nontrivial": _split(d.chunks),
             "ref": lambda: np.searchsorted(x, v, side=case["side"]), "run": lambda: da.searchsorted(d, dv, side=case["side"])}
 
 
@@ -701,7 +891,7 @@ def _p_unravel_index(case):
     d = da.from_array(idx, chunks=tuple(tuple(c) for c in case["chunks"]))
     feat = _input_features((idx, d.chunks)) + ("&nd>1" if idx.ndim > 1 else "")
     params = ["order=" + case["order"]]
-    return {"label": "unravel_index", "feat": feat, "params": params, "nontrivial": _split(d.chunks), "names": tuple("dim%d" % i for i in range(len(dims))),
+    return {"label": "unravel_index", "feat": feat, "params": params, "name_outputs": False, "nontrivial": _split(d.chunks), "names": tuple("dim%d" % i for i in range(len(dims))),
             "ref": lambda: np.unravel_index(idx, dims, order=case["order"]),
             "run": lambda: da.unravel_index(d, dims, order=case["order"])}
 
@@ -729,9 +919,10 @@ def _p_coarsen(case):
     dred = getattr(da, red[3:]) if red.startswith("da.") else nred
     trim = case["trim_excess"]
     excess = any(x.shape[a] % k for a, k in axes.items())
-    feat = _input_features((x, d.chunks)) + ("&excess" if excess else "")
-    params = ["red=" + red]
-    feat += "&misaligned-chunks" if any(c % axes.get(a, 1) for a, cs in enumerate(d.chunks) for c in cs) else ""
+    # coarsen is not blockwise: an empty chunk on a length-1 axis is the same situation as on any other axis
+    feat = "&".join(sorted(set(_input_features((x, d.chunks)).replace("short-axis-split", "empty-chunk").split("&"))))
+    params = ["red=" + red] + (["excess"] if excess else [])
+    params += ["misaligned-chunks"] if any(c % axes.get(a, 1) for a, cs in enumerate(d.chunks) for c in cs) else []
     tol = (max(axes.values(), default=1) ** max(1, len(axes)), 4.0) if red == "mean" else None
     return {"label": "coarsen", "feat": feat, "params": params, "nontrivial": _split(d.chunks), "tol": tol,
             "ref": lambda: _coarsen_ref(nred, x, axes, trim), "run": lambda: da.coarsen(dred, d, axes, trim_excess=trim)}
